@@ -52,6 +52,7 @@ func (c SyncCase) String() string {
 
 // SyncObs is everything observable about one transfer.
 type SyncObs struct {
+	Merge  bool // the transfer ran in merge mode (no comparison with the old destination)
 	Res    xfer.Result
 	View   fsmodel.Tree // what the source looks like (independent snapshot)
 	Before fsmodel.Tree
@@ -96,7 +97,7 @@ func (d *syncDirs) transfer(c SyncCase, srcTree fsmodel.Tree) *SyncObs {
 }
 
 func (d *syncDirs) transferFault(c SyncCase, srcTree fsmodel.Tree, fault xfer.Fault) *SyncObs {
-	o := &SyncObs{}
+	o := &SyncObs{Merge: c.Merge}
 	var err error
 	if o.Before, err = fsmodel.Snapshot(d.dst); err != nil {
 		o.Err = err.Error()
